@@ -81,4 +81,97 @@ Section Replace.
     destruct (op_detach false s a) as [s1 b|s1 e|] eqn:Ed; simpl in E; inversion E; subst.
     eapply inv2_step_detach; eassumption.
   Qed.
+
+  (* changing id / original_id / id_collision_with of a DETACHED node: nothing the invariant reads *)
+  Lemma inv2_flip_detached s n f :
+    (forall c, exists i o k, f c = with_ids i o k c) ->
+    Inv2 H ct s -> detached s n = true -> Inv2 H ct (upd s n f).
+  Proof.
+    intros Hf [HR [HK [HP HL]]] Hdn. set (s' := upd s n f).
+    assert (Hsame : forall b, c_cls (cellD s' b) = c_cls (cellD s b) /\ c_fs (cellD s' b) = c_fs (cellD s b) /\
+                              c_pid (cellD s' b) = c_pid (cellD s b) /\ c_pf (cellD s' b) = c_pf (cellD s b) /\
+                              c_pi (cellD s' b) = c_pi (cellD s b) /\ c_cid (cellD s' b) = c_cid (cellD s b)).
+    { intros b. unfold s'. rewrite cellD_upd. destruct (Nat.eqb n b && Nat.ltb n (List.length (heap s))).
+      - destruct (Hf (cellD s b)) as [i [o [k E]]]. rewrite E. repeat split; reflexivity.
+      - repeat split; reflexivity. }
+    assert (Hne : forall b, b <> n -> cellD s' b = cellD s b).
+    { intros b Hb. unfold s'. rewrite cellD_upd. destruct (Nat.eqb n b) eqn:E; [|reflexivity].
+      apply Nat.eqb_eq in E. congruence. }
+    assert (Hreg : forall i, reg_get s' i = reg_get s i) by (intros i; apply reg_get_upd).
+    assert (Hlen : List.length (heap s') = List.length (heap s)) by apply heap_len_upd.
+    assert (Hregn : forall i x, reg_get s i = Some x -> x <> n).
+    { intros i x Hx ->. destruct (HR _ _ Hx) as [_ Hi]. rewrite <- Hi in Hx.
+      apply attached_reg in Hx. unfold attached in Hx. congruence. }
+    assert (Hdet : forall b, b <> n -> detached s' b = detached s b).
+    { intros b Hb. unfold detached, id_of. rewrite Hreg, (Hne b Hb). reflexivity. }
+    assert (Hdetn : detached s' n = true).
+    { unfold detached. rewrite Hreg. destruct (reg_get s (id_of s' n)) as [x|] eqn:E; [|reflexivity].
+      apply Hregn in E. apply negb_true_iff. apply Nat.eqb_neq. exact E. }
+    assert (Hpar : forall b, parent s' b = parent s b).
+    { intros b. unfold parent. destruct (Hsame b) as [_ [_ [E _]]]. rewrite E.
+      destruct (c_pid (cellD s b)); [apply Hreg | reflexivity]. }
+    assert (Hskw : forall b, skids_wf s' b = skids_wf s b).
+    { intros b. unfold skids_wf, kids_wf. destruct (Hsame b) as [_ [E _]]. rewrite E. reflexivity. }
+    assert (Hatt : forall b, attached s' b -> b <> n /\ attached s b).
+    { intros b Hb. assert (Hbn : b <> n) by (intros ->; unfold attached in Hb; congruence).
+      split; [exact Hbn|]. unfold attached in *. rewrite <- (Hdet b Hbn). exact Hb. }
+    assert (Hatt' : forall b, attached s b -> attached s' b).
+    { intros b Hb. assert (Hbn : b <> n) by (intros ->; unfold attached in Hb; congruence).
+      unfold attached in *. rewrite (Hdet b Hbn). exact Hb. }
+    split; [|split; [|split]].
+    - intros i x Hx. rewrite Hreg in Hx. assert (Hxn := Hregn _ _ Hx). destruct (HR _ _ Hx) as [Hl Hi].
+      split; [unfold live in *; rewrite Hlen; exact Hl|]. unfold id_of. rewrite (Hne x Hxn). exact Hi.
+    - intros b k Hk. apply in_skids in Hk. destruct Hk as [f0 [i Hk]]. rewrite Hskw in Hk.
+      apply HK. apply in_skids. eauto.
+    - intros b Hb. destruct (Hsame b) as [_ [_ [E _]]]. rewrite E in Hb. destruct (HP b Hb) as [A B].
+      split; [apply Hatt'; exact A | rewrite Hpar; exact B].
+    - intros b Hlb Hab. destruct (Hatt b Hab) as [Hbn Hab0].
+      assert (Hlb0 : live s b) by (unfold live in *; rewrite <- Hlen; exact Hlb).
+      destruct (HL b Hlb0 Hab0) as [Hc Hs Hl Hcid]. destruct (Hsame b) as [_ [_ [_ [Epf [Epi Ecid]]]]].
+      constructor.
+      + intros k f0 i Hin. rewrite Hskw in Hin. destruct (Hc k f0 i Hin) as [A [B [C Dd]]].
+        destruct (Hsame k) as [_ [_ [_ [Ekpf [Ekpi _]]]]].
+        split; [apply Hatt'; exact A|]. rewrite Hpar, Ekpf, Ekpi. auto.
+      + intros p Hp. rewrite Hpar in Hp. destruct (Hs p Hp) as [f0 [Hf0 Hin]].
+        exists f0. rewrite Epf, Epi, Hskw. split; assumption.
+      + unfold id_of. rewrite (Hne b Hbn), Hreg. exact Hl.
+      + rewrite Ecid, Hcid. symmetry.
+        assert (Hfu : fuel_of s' = fuel_of s) by (unfold fuel_of; rewrite Hlen; reflexivity).
+        rewrite Hfu. apply tree_cid_skel. intros x. destruct (Hsame x) as [A [B _]]. split; assumption.
+  Qed.
+
+  (* replace_with(node) on a parent-less receiver, the new node being detached after the receiver was detached:
+     detach() + the id flip on the detached new node + attach.  The guard of attach is read on the state in which the
+     new node already carries the receiver's id (findings C18:ReplaceWith:child-detached / :content-id excluded). *)
+  Theorem inv2_step_replace_with_root s a n s' :
+    Inv2 H ct s -> parent s a = None ->
+    step H ct s (OReplaceWith a (Some n)) = (s', RNone) ->
+    detached (fst (step H ct s (ODetach a))) n = true ->
+    att_guard H ct (fst (flip_ids (fst (step H ct s (ODetach a))) a n)) n ->
+    Inv2 H ct s'.
+  Proof.
+    intros HI Hp E Hdn HG. simpl in E. unfold op_replace_with in E. rewrite Hp in E.
+    destruct (is_attached_subtree s n); simpl in E; [discriminate|].
+    assert (Ed : exists s1 b, op_detach false s a = Ok s1 b /\
+                   (if negb (detached s a) then op_detach false s a else Ok s true) = Ok s1 b).
+    { destruct (detached s a) eqn:Hda; simpl.
+      - exists s, true. split; [apply detach_detached_noop; exact Hda | reflexivity].
+      - destruct (op_detach false s a) as [s1 b|s1 e|] eqn:Ed; simpl in E; try discriminate.
+        exists s1, b. split; reflexivity. }
+    destruct Ed as [s1 [b [Ed Ed']]]. rewrite Ed' in E. simpl in E.
+    assert (Hs1 : fst (step H ct s (ODetach a)) = s1) by (simpl; rewrite Ed; reflexivity).
+    rewrite Hs1 in Hdn, HG.
+    assert (HI1 : Inv2 H ct s1) by (eapply inv2_step_detach; eassumption).
+    unfold flip_ids in E, HG. rewrite Hdn in E, HG. simpl in E, HG.
+    match type of HG with att_guard _ _ ?t _ => set (s2 := t) in * end.
+    assert (HI2 : Inv2 H ct s2).
+    { apply inv2_flip_detached; [|exact HI1 | exact Hdn]. intros c. do 3 eexists. reflexivity. }
+    destruct (attach_ s2 n) as [s3 u|s3 e|] eqn:Ea; simpl in E.
+    - destruct HG as [Hl [HT [HA HC]]]. assert (HI3 := inv2_attach H ct s2 n s3 u HI2 Hl HT HA HC Ea).
+      inversion E; subst s3. exact HI3.
+    - destruct (detached s a); simpl in E.
+      + inversion E.
+      + destruct (attach_ s3 a); simpl in E; inversion E.
+    - discriminate.
+  Qed.
 End Replace.
